@@ -1,2 +1,176 @@
-Require Import V.Lib.Base V.C08.Model.
-Example c08_placeholder : run_case [] = []. Proof. reflexivity. Qed.
+(* C08 - property theorems.  Model: V.C08.Model (string matchers, SmodelsInput::readSymbols, the trip through C02's converter
+   model); statement-side definitions: V.C08.Spec (good_name, sitem/sym_of = the symbols the converter's flush writes,
+   ok_item, node_of). *)
+Require Import V.Lib.Base V.Lib.Calls V.Lib.Dec V.Gen.Consts V.Gen.Consts_C02 V.Gen.Consts_C08 V.C02.Model V.C08.Model V.C08.Spec
+               V.C08.ProofsStr V.C08.ProofsSym V.C08.ProofsFlush.
+Local Open Scope Z_scope.
+
+(* (1) The two predicate texts are read back exactly.  For EVERY name n that is a good name (non-empty, NUL-free, quotes closed,
+   parentheses balanced outside quotes, no comma outside parentheses and quotes), every modifier 0..eMax, every 32-bit bias
+   (INT_MIN included) and every priority 0..2^31-1:  matchDomHeuPred on the text SmodelsConvert::flushHeuristic formats
+   (format string, Heuristic_t::pred and toString(Heuristic_t) taken from the sources) returns 1, consumes the whole text and
+   yields exactly (n, modifier, bias, priority).  For ALL integers s, t: matchEdgePred on the text SmodelsConvert::acycEdge
+   formats returns 1, consumes everything and yields the decimal texts of s and t, which determine s and t. *)
+Theorem c08_pred_roundtrip :
+  (forall n t b pr, good_name n -> 0 <= t <= heu_emax -> C_INT_MIN <= b <= C_INT_MAX -> 0 <= pr <= C_INT_MAX ->
+     match_dom_heu (fmt_heu n t b pr) = (1, [], mkHR n t b pr)) /\
+  (forall s t, match_edge (fmt_edge_s s t) = (1, [], (print_Z s, print_Z t))) /\
+  (forall a b, print_Z a = print_Z b -> a = b).
+Proof. split; [exact heu_roundtrip | split; [exact edge_roundtrip | exact print_Z_inj]]. Qed.
+Print Assumptions c08_pred_roundtrip.
+
+(* the three-argument form `_heuristic(a,m,bias)`: the implicit priority is |bias| for every int - 2^31 for INT_MIN (repaired
+   code, /repo f9ecd5c; it was -bias in signed arithmetic) *)
+Theorem c08_implicit_prio : forall b, C_INT_MIN <= b <= C_INT_MAX -> implicit_prio b = Z.abs b.
+Proof. exact implicit_prio_abs. Qed.
+Print Assumptions c08_implicit_prio.
+
+Definition nm_pab : list Z := [112; 40; 34; 97; 44; 98; 34; 44; 102; 40; 49; 44; 50; 41; 41].   (* p(QaCbQ,f(1,2)) with Q = the quote byte 34 and C = a comma *)
+Definition nm_esc : list Z := [113; 40; 34; 120; 92; 34; 121; 34; 41].                           (* q(Qx\QyQ): an escaped quote inside a quoted string *)
+Example c08_good_names : good_name nm_pab /\ good_name nm_esc /\ good_name [97] /\ good_name (fmt_atom_s 7).
+Proof. repeat split; try discriminate; try (repeat constructor; discriminate); vm_compute; reflexivity. Qed.
+Example c08_not_good_names :   (* `a,b`   `f(`   `a)`   an unclosed quoted string   the empty name *)
+  good_nameb [97; 44; 98] = false /\ good_nameb [102; 40] = false /\ good_nameb [97; 41] = false /\
+  good_nameb [34; 97; 98] = false /\ good_nameb [] = false.
+Proof. repeat split; vm_compute; reflexivity. Qed.
+Example c08_pred_roundtrip_nonvacuous :
+  match_dom_heu (fmt_heu nm_pab 1 (-2147483648) 2147483647) = (1, [], mkHR nm_pab 1 (-2147483648) 2147483647) /\
+  match_edge (fmt_edge_s (-3) 2147483647) = (1, [], ([45; 51], [50; 49; 52; 55; 52; 56; 51; 54; 52; 55])) /\
+  fst (fst (match_dom_heu (fmt_heu [97; 44; 98] 1 1 1))) = -2.     (* a name outside good_name is NOT read back *)
+Proof. repeat split; vm_compute; reflexivity. Qed.
+
+(* (2) Heuristics.  A symbol table as the converter's flush produces it (c08_flush_shape below) is `map sym_of items`: `_heuristic(..)`
+   symbols (IHeu, good target name, priority <= 2^31-1), `_edge(s,t)` symbols (IEdge) and other names that start with none of the
+   helper texts (IPlain); st is the reader's state left by earlier steps (empty for the first one).  With heuristic conversion on,
+   for EVERY such table, state and setting of the other two options: the heuristic calls delivered are, in order, one per
+   `_heuristic` symbol whose target name is carried by some symbol of this or an earlier step - on the atom of the FIRST symbol
+   carrying that name, with the same modifier, bias and priority and the helper atom as condition - and none for a target name no
+   symbol carries (dropped); nothing else is delivered as a heuristic.  With conversion off no heuristic is delivered. *)
+Theorem c08_heuristic : forall o st items, Forall ok_item items ->
+  let res := read_step o st (map sym_of items) in
+  let tab' := r_tab st ++ map entry_of items in
+  (cH o = true ->
+     r_tab (fst res) = tab' /\
+     filter is_heu_call (snd res) =
+       flat_map (fun d => let x := tab_find (d_name d) tab' in
+                          if x =? 0 then [] else [CHeuristic x (d_type d) (d_bias d) (d_prio d) [d_cond d]]) (heus_of items)) /\
+  (cH o = false -> filter is_heu_call (snd res) = []) /\
+  (forall n, tab_find n tab' <> 0 -> In (n, tab_find n tab') tab') /\
+  (forall n, (forall a, ~ In (n, a) tab') -> tab_find n tab' = 0) /\
+  (forall n, (forall k a, In (k, a) tab' -> a <> 0) -> (exists a, In (n, a) tab') -> tab_find n tab' <> 0).
+Proof.
+  intros o st items Hok res tab'. split; [|split; [|split; [|split]]].
+  - intros HcH. exact (heuristics_back o st items HcH Hok).
+  - intros HcH. exact (heuristics_off o st items HcH Hok).
+  - intros n. apply tab_find_in.
+  - intros n. apply tab_find_none.
+  - intros n. apply tab_find_found.
+Qed.
+Print Assumptions c08_heuristic.
+
+Definition demo_items : list sitem :=
+  [IHeu (mkDom [97] 1 (-1) 2 5); IHeu (mkDom nm_pab 0 (-2147483648) 0 6); IHeu (mkDom [122] 3 1 1 7);
+   IPlain 2 [97]; IEdge 3 0 7; IPlain 4 nm_pab; IEdge 5 7 (-1); IPlain 8 [97]].
+Example c08_heuristic_nonvacuous :
+  Forall ok_item demo_items /\
+  filter is_heu_call (snd (read_step (mkO true true true) r0 (map sym_of demo_items))) =
+    [CHeuristic 2 1 (-1) 2 [5]; CHeuristic 4 0 (-2147483648) 0 [6]].    (* `z` names no atom: dropped; `a` = the first of two atoms *)
+Proof.
+  split; [|vm_compute; reflexivity].
+  repeat (apply Forall_cons; [cbn [ok_item]|]); try apply Forall_nil; try exact I;
+    try (split; [repeat constructor; discriminate | repeat split; vm_compute; reflexivity]).
+  - split; [apply good_nameb_ok; vm_compute; reflexivity|]. unfold heu_emax, C_INT_MIN, C_INT_MAX; cbn [d_type d_bias d_prio]; lia.
+  - split; [apply good_nameb_ok; vm_compute; reflexivity|]. unfold heu_emax, C_INT_MIN, C_INT_MAX; cbn [d_type d_bias d_prio]; lia.
+  - split; [apply good_nameb_ok; vm_compute; reflexivity|]. unfold heu_emax, C_INT_MIN, C_INT_MAX; cbn [d_type d_bias d_prio]; lia.
+Qed.
+
+(* (3) Edges.  With edge conversion on, for every such table: the edge calls delivered are, in order, one per `_edge(s,t)` symbol
+   with the helper atom as condition and the node numbers renamed by rho = node_of (final node table); rho is injective on all
+   integers whose decimal text is in the table - which includes every node of every edge of this step - and agrees with the
+   numbering of earlier steps (the table only grows).  With conversion off no edge is delivered and the node table is unchanged. *)
+Theorem c08_edges : forall o st items, Forall ok_item items ->
+  let res := read_step o st (map sym_of items) in
+  let nodes' := r_nodes (fst res) in
+  (cE o = true ->
+     filter is_edge_call (snd res) =
+       map (fun e => match e with (c, s, t) => CEdge (node_of nodes' s) (node_of nodes' t) [c] end) (edges_of items) /\
+     (forall c s t, In (c, s, t) (edges_of items) -> In (print_Z s) nodes' /\ In (print_Z t) nodes') /\
+     (exists e, nodes' = r_nodes st ++ e) /\
+     (forall z k, node_idx (print_Z z) (r_nodes st) 0 = Some k -> node_of nodes' z = k)) /\
+  (forall z z', In (print_Z z) nodes' -> node_of nodes' z = node_of nodes' z' -> z = z') /\
+  (cE o = false -> filter is_edge_call (snd res) = [] /\ nodes' = r_nodes st).
+Proof.
+  intros o st items Hok res nodes'. split; [|split].
+  - intros HcE. destruct (edges_back o st items HcE Hok) as [[e He] Hcalls].
+    split; [exact Hcalls|]. split; [exact (edges_nodes_known o st items HcE Hok)|]. split; [exists e; exact He|].
+    intros z k Hk. unfold nodes', res. rewrite He. apply node_of_ext. exact Hk.
+  - intros z z'. apply node_of_inj.
+  - intros HcE. unfold nodes', res. rewrite (read_step_items o st items Hok). cbn [fst snd r_nodes].
+    destruct (spec_no_edges items o (r_nodes st) HcE) as [H1 H2]. split; [|exact H2].
+    rewrite filter_app_, H1. destruct (cH o); [apply deliver_doms_not; reflexivity | reflexivity].
+Qed.
+Print Assumptions c08_edges.
+
+Example c08_edges_nonvacuous :
+  filter is_edge_call (snd (read_step (mkO true true true) r0 (map sym_of demo_items))) = [CEdge 0 1 [3]; CEdge 1 2 [5]] /\
+  r_nodes (fst (read_step (mkO true true true) r0 (map sym_of demo_items))) = [[48]; [55]; [45; 49]].
+Proof. split; vm_compute; reflexivity. Qed.
+
+(* (4) Externals.  The value written by SmodelsOutput::external ((v xor 3) - 1, or rule type 92 for Release) and decoded by
+   SmodelsInput::readRules ((code xor 3) - 1 after the range check code <= 2) is the value itself, for all four values
+   (finite domain, swept); the coding is an involution on 0..2 in both directions.  The constants are read from smodels.cpp. *)
+Theorem c08_externals :
+  (forall v, 0 <= v <= 3 -> ext_rw v = Some v) /\
+  forallb (fun v => ext_decode (ext_code v) =? v) [0; 1; 2] = true /\
+  forallb (fun c => ext_code (ext_decode c) =? c) [0; 1; 2] = true /\
+  forallb (fun v => (0 <=? ext_code v) && (ext_code v <=? extr_max)) [0; 1; 2] = true.
+Proof. split; [exact ext_values_back | exact ext_code_involution]. Qed.
+Print Assumptions c08_externals.
+
+(* (5) Filter.  (a) Without filter nothing is lost: for ANY symbol table whatsoever (no hypothesis on the names) and any options the
+   output calls delivered are exactly the symbols, in order, unchanged.  (b) For tables of the converter's shape the output calls are
+   exactly the symbols that are not (converted and filtered), in order, unchanged.  (c) With all three options on, the delivered
+   outputs are exactly the plain symbols: every one of them is delivered with its own atom, and no delivered name starts with
+   `_heuristic(`, `_edge(` or `_acyc_`. *)
+Theorem c08_filter :
+  (forall o st syms, flt o = false ->
+     filter is_out_call (snd (read_step o st syms)) = map (fun s => COutput (snd s) [fst s]) syms) /\
+  (forall o st items, Forall ok_item items ->
+     filter is_out_call (snd (read_step o st (map sym_of items))) =
+     map out_of (filter (fun it => negb (converted o it && flt o)) items)) /\
+  (forall o st items, cE o = true -> cH o = true -> flt o = true -> Forall ok_item items ->
+     (forall c, In c (filter is_out_call (snd (read_step o st (map sym_of items)))) <->
+                exists a n, c = COutput n [a] /\ In (IPlain a n) items) /\
+     (forall n a, In (COutput n [a]) (filter is_out_call (snd (read_step o st (map sym_of items)))) -> no_helper_prefix n)).
+Proof.
+  split; [exact read_step_unfiltered | split; [exact outputs_back|]].
+  intros o st items HcE HcH Hf Hok. split; [exact (filtered_outputs_plain o st items HcE HcH Hf Hok)|].
+  intros n a Hin. apply (filtered_outputs_plain o st items HcE HcH Hf Hok) in Hin.
+  destruct Hin as (a' & n' & Heq & Hin). inversion Heq; subst. rewrite Forall_forall in Hok. apply (Hok _ Hin).
+Qed.
+Print Assumptions c08_filter.
+
+Example c08_filter_nonvacuous :
+  filter is_out_call (snd (read_step (mkO true true true) r0 (map sym_of demo_items))) =
+    [COutput [97] [2]; COutput nm_pab [4]; COutput [97] [8]] /\
+  length (filter is_out_call (snd (read_step (mkO true true false) r0 (map sym_of demo_items)))) = 8%nat.
+Proof. split; vm_compute; reflexivity. Qed.
+
+(* (6) The link to the converter model of C02: what SmodelsConvert::flushHeuristic emits.  For EVERY converter state s and list of
+   pending heuristics hs: the calls are `output(_heuristic(name,modifier,bias,prio), [cond])` for a sub-sequence of hs (those whose
+   atom is mapped), modifier / bias / priority / condition atom taken from the directive, and each target name is either a name in
+   the converter's symbol table (put there by an `output` of this or an earlier step, emitted as a symbol then) or the `_atom(k)` name
+   that this very flush appends to the pending outputs (emitted by flushSymbols right after).
+   c08_flush_shape_partial: NOT proved here - (A) that every name in SmData::symTab_ was emitted as a symbol of this or an earlier
+   step and is therefore in the reader's table (an invariant over whole runs of cv_call), (B) that the names a user gives are
+   good names / carry no helper prefix (a hypothesis on the input, see notes), (C) the composition over several steps with the
+   reader state.  The differential check compares the composed model `trip` with the real pipeline on every generated program. *)
+Theorem c08_flush_shape_partial : forall hs s s' cs, flushHeuristic_f s hs = (s', cs) ->
+  exists ds : list (dom * heu),
+    cs = map (fun x => out_of (IHeu (fst x))) ds /\
+    sublist (map snd ds) hs /\
+    Forall (fun x => let d := fst x in let h := snd x in
+              d_type d = h_type h /\ d_bias d = h_bias h /\ d_prio d = h_prio h /\ d_cond d = h_cond h /\
+              (In (d_name d) (map snd (symtab s')) \/ In (d_name d) (map s_name (outs s')))) ds.
+Proof. exact flush_heuristic_shape. Qed.
+Print Assumptions c08_flush_shape_partial.
